@@ -89,6 +89,17 @@ class Build:
         self.mk = mk
         self.wall = time.time() - t0
 
+    def build_runtime(self):
+        """rebuild the runtime library libfoam.a in the scratch tree (its sources are copied from
+        src/ by make rules, so edits and the hook guard reach the runtime of compiled programs)"""
+        d = os.path.join(self.comp, "lib", "libfoam")
+        rc, out, err = run(self.mk + ["libfoam.a"], cwd=d, timeout=1800)
+        self.log += out + err
+        if rc != 0:
+            raise BuildError("make libfoam.a failed:\n" + (out + err)[-4000:])
+        self.libfoam_dir = d
+        return d
+
     @staticmethod
     def hooked_files():
         fs = []
